@@ -21,7 +21,7 @@ type RaceReport struct {
 
 // Key returns the unordered pair of source positions.
 func (r RaceReport) Key() string {
-	a, b := r.PosA, r.PosB
+	a, b := stable(r.PosA), stable(r.PosB)
 	if a > b {
 		a, b = b, a
 	}
@@ -252,4 +252,51 @@ func (s *Sim) RaceReports() []RaceReport {
 	}
 
 	return out
+}
+
+// R records a read of *p and returns p (inserted around field reads by the instrumenter).
+func R[T any](p *T, pos string) *T {
+	Access(unsafe.Pointer(p), false, pos)
+
+	return p
+}
+
+// W records a write of *p and returns p.
+func W[T any](p *T, pos string) *T {
+	Access(unsafe.Pointer(p), true, pos)
+
+	return p
+}
+
+// MR records a read operation on a Go map.
+func MR[K comparable, V any](m map[K]V, pos string) map[K]V {
+	AccessMap(MapPtr(m), false, pos)
+
+	return m
+}
+
+// MW records a write operation on a Go map.
+func MW[K comparable, V any](m map[K]V, pos string) map[K]V {
+	AccessMap(MapPtr(m), true, pos)
+
+	return m
+}
+
+// AtomicPtr records a sync/atomic operation on *p and returns p.
+func AtomicPtr[T any](p *T) *T {
+	Atomic(unsafe.Pointer(p))
+
+	return p
+}
+
+// stable strips "file:line|" from an access label, leaving "Type.Func:field" which does not
+// move when unrelated lines are edited.
+func stable(pos string) string {
+	for i := 0; i < len(pos); i++ {
+		if pos[i] == '|' {
+			return pos[i+1:]
+		}
+	}
+
+	return pos
 }
